@@ -1585,7 +1585,8 @@ class World:
         if self.csv and self.mode in ("w", "a") and k != "reopen":
             pass
         rewrote = k in REWRITES and ctx["out"].kind == "ret" and \
-            (ctx["out"].value not in (0, None) or k == "remove_all")
+            (ctx["out"].value not in (0, None) or (
+                k == "remove_all" and op.get("via") != "h"))
         lenient = self.csv and not self.cfg["flush_on_insert"] and \
             not rewrote and (self.pending > 0 or k in INSERTS)
         if k in INSERTS and self.csv and not self.cfg["flush_on_insert"]:
